@@ -87,6 +87,7 @@ Skel(t, m, a) ==
                       <<SizeAt(t, m, a), sh, [k \in 1..NItems(sh) |-> Skel(t.it, m, ItemAddr(t, m, a, IdxOf(k, sh)))]>>
     [] OTHER -> 0
 
+TopSkel(t, m, a) == <<SizeAt(t, m, a), IF t.k = "arr" THEN Shape(t, m, a) ELSE <<>>>>      \* stored size and shape of the element itself
 RECURSIVE SkelNoStr(_, _, _)       \* the skeleton with string boxes ignored
 SkelNoStr(t, m, a) ==
   CASE t.k = "struct" -> <<SizeAt(t, m, a), [i \in 1..Len(t.f) |-> SkelNoStr(t.f[i], m, FieldAddr(t, i, m, a))]>>
